@@ -365,14 +365,18 @@ fn tag_lines(case: &Value) -> Vec<String> {
         lines.push(" Intro.".into());
     }
     let tags = case["tags"].as_array().cloned().unwrap_or_default();
+    // what stands between the slashes and a tag is layout: nothing, blanks, a tab, a wide or a no-break blank
+    const GAPS: [&str; 6] = [" ", "", "  ", "\t", "\u{3000}", "\u{a0} "];
+    let h = (crate::util::hash_str(&case["tags"].to_string()) >> 5) as usize;
     for (j, t) in tags.iter().enumerate() {
         let kind = t["t"].as_str().unwrap_or("");
         let id = t["id"].as_str().unwrap_or("");
         let (inl, _, _) = inline_text(t["inline"].as_str().unwrap_or("none"), j + 1);
+        let g = GAPS[(h + j) % GAPS.len()];
         match kind {
-            "param" => lines.push(format!(" @param {id}{inl}")),
-            "returns" => lines.push(if id.is_empty() { format!(" @returns{inl}") } else { format!(" @returns {id}{inl}") }),
-            _ => lines.push(format!(" @see {id}")),
+            "param" => lines.push(format!("{g}@param {id}{inl}")),
+            "returns" => lines.push(if id.is_empty() { format!("{g}@returns{inl}") } else { format!("{g}@returns {id}{inl}") }),
+            _ => lines.push(format!("{g}@see {id}")),
         }
         if kind != "see" {
             let ci = t["cont"].as_u64().unwrap_or(1) as usize;
